@@ -521,6 +521,9 @@ func (r *Run) exec(s SymStep) StepRec {
 		tab0 := r.totpTable(code)
 		rec.Oracle.Totp = tab0
 		rec.Action = &Action{Kind: "req", Req: &q}
+		if w.nearDeadline(q.Browser) {
+			rec.Unstable = true
+		}
 		ro = w.do(q)
 		if fmt.Sprint(r.totpTable(code)) != fmt.Sprint(tab0) {
 			rec.Unstable = true
